@@ -92,9 +92,9 @@ def WState.step (m : NsMap) (isDatatype : Str → Bool) (w : WState) : Ev → Ex
     | none => .error (.unsupported "data payload")
     | some value =>
       let w := w.flush value.isNone
+      -- consecutive data of the same element is written in the order it arrives (`tail` is never set)
       let w := match value with
-        | some s => if s.isEmpty then w else
-            (if !w.inTail then { w with out := w.out ++ [Sax.chars s] } else { w with tail := some s })
+        | some s => if s.isEmpty then w else { w with out := w.out ++ [Sax.chars s] }
         | none => w
       .ok { w with inTail := true }
   | .end q =>
